@@ -16,6 +16,7 @@ import (
 	"verifharness/suites/migrate"
 	"verifharness/suites/pool"
 	"verifharness/suites/reader"
+	signalsuite "verifharness/suites/signal"
 	streamsuite "verifharness/suites/stream"
 	"verifharness/suites/wire"
 )
@@ -30,6 +31,7 @@ var suites = map[string]func(*corr.Out){
 	"migrate": migrate.Run,
 	"pool":    pool.Run,
 	"reader":  reader.Run,
+	"signal":  signalsuite.Run,
 	"e2e":     e2e.Run,
 	"stream":  streamsuite.Run,
 }
